@@ -8,6 +8,7 @@ package server
 import (
 	"bytes"
 	gocontext "context"
+	"crypto/sha256"
 	"encoding/json"
 	"errors"
 	"fmt"
@@ -96,6 +97,16 @@ func (w *z15World) call(method, path string, body any) (int, string) {
 	return rec.Code, rec.Body.String()
 }
 
+// callRaw sends a body as it is (blob upload).
+func (w *z15World) callRaw(method, path string, body []byte) (int, string) {
+	ctx, cancel := mcrt.WithCancel(gocontext.Background())
+	req := httptest.NewRequest(method, path, bytes.NewReader(body)).WithContext(ctx)
+	rec := httptest.NewRecorder()
+	w.h.ServeHTTP(rec, req)
+	cancel()
+	return rec.Code, rec.Body.String()
+}
+
 // callGone is call with a client that may go away at any point: its request context is cancelled by a
 // separate thread, the handler keeps running until it returns (as under net/http).
 func (w *z15World) callGone(method, path string, body any) (int, string) {
@@ -177,6 +188,11 @@ func (w *z15World) do(q z15Req) {
 		code, body = w.call("POST", "/api/copy", api.CopyRequest{Source: q.A, Destination: q.B})
 	case "delete":
 		code, body = w.call("DELETE", "/api/delete", api.DeleteRequest{Model: q.A})
+	case "blob":
+		// upload of a model file that is not in the store yet (variant q.A of the harness's file)
+		data := append([]byte{}, ztGGUFBlob()...)
+		data[len(data)-1] ^= q.A[0]
+		code, body = w.callRaw("POST", "/api/blobs/"+fmt.Sprintf("sha256:%x", sha256.Sum256(data)), data)
 	case "pull":
 		code, body = w.call("POST", "/api/pull", api.PullRequest{Model: ztName, Stream: &z15Stream})
 	case "pull-gone":
@@ -315,6 +331,8 @@ func z15Scenarios(thorough bool) []z15Scenario {
 		{Name: "copy|delete", Cap: 1, Reqs: []z15Req{{Kind: "copy", A: "a", B: "d"}, {Kind: "delete", A: "a"}}},
 		{Name: "delete|show", Cap: 1, Reqs: []z15Req{{Kind: "delete", A: "a"}, {Kind: "show", A: "a"}}},
 		{Name: "create|delete-sharing", Cap: 1, Reqs: []z15Req{{Kind: "create", A: "c", B: ""}, {Kind: "delete", A: "a"}}},
+		{Name: "blob|blob same", Cap: 1, Reqs: []z15Req{{Kind: "blob", A: "x"}, {Kind: "blob", A: "x"}}},
+		{Name: "blob|blob", Cap: 1, Reqs: []z15Req{{Kind: "blob", A: "x"}, {Kind: "blob", A: "y"}}},
 		{Name: "pull|pull", Cap: 1, Reqs: []z15Req{{Kind: "pull"}, {Kind: "pull"}}},
 		{Name: "pull-gone", Cap: 2, Reqs: []z15Req{{Kind: "pull-gone"}}},
 		{Name: "push-gone", Cap: 2, Reqs: []z15Req{{Kind: "push-gone", A: "reg.test/lib/up:tag"}}},
